@@ -1,4 +1,6 @@
 (* driver for m_exc:  ref <ctx> <program tokens>   |   sch <fx> <sx> <ctx> <program tokens>
+                     lab <late_switch> <fx> <sx> <ctx> <program tokens>   (label-level code, M_ExcLab)
+                     sites <program tokens>   (error label of every block marker, emission order)
    ctx: 0 = nothing handled at entry, 1 = called inside a handler (top item = outer exception),
         2 = called from a generator frame inside a handler (top item empty, outer underneath) *)
 let ni s = nat_of_int (int_of_string s)
@@ -90,6 +92,35 @@ let show (o, st) =
   String.concat " " (List.map ev_str st.co.log) ^ " => " ^ oc ^ " after=" ^ describe h (handled st)
     ^ " slot=" ^ describe h st.top ^ " names=" ^ names
 
+(* every block marker (LLog n) of the generated label code with the error label current at its
+   position: "n:label:kind", in emission order, all copies of finally clauses included.
+   kind = the name Cython gives the label (error / except_error) *)
+let sites (s : stmt) : string =
+  let kinds : (int, string) Hashtbl.t = Hashtbl.create 64 in
+  let setk l k = Hashtbl.replace kinds (int_of_nat l) k in
+  setk g_fun.g_err "error";
+  let out = Buffer.create 256 in
+  let rec go = function
+    | LLog (n, l) ->
+        let li = int_of_nat l in
+        Buffer.add_string out (Printf.sprintf "%d:%d:%s " (int_of_nat n) li
+          (try Hashtbl.find kinds li with Not_found -> "?"))
+    | LSeq (a, b) -> go a; go b
+    | LTry (tl, body, hs, orelse) ->
+        setk tl.t_our_err "error"; setk tl.t_exc_err "except_error";
+        go body; go orelse; goh hs
+    | LFinally (_, fl, body, fnorm, fexc, fcont, fbrk, fret) ->
+        setk fl.f_new_err "error"; setk fl.f_ex_err "error";
+        go body; go fnorm; go fexc; go fcont; go fbrk; go fret
+    | LLoop (_, _, _, body) -> go body
+    | LWithScope (_, l, body) -> setk l "error"; go body
+    | _ -> ()
+  and goh = function
+    | LHNil -> ()
+    | LHCons (_, _, _, _, _, _, _, body, tl) -> go body; goh tl in
+  go (fst (gen false (desugar s) g_fun));
+  Buffer.contents out
+
 let handle = function
   | "ref" :: ctx :: toks ->
       let (s, rest) = p_stmt toks in if rest <> [] then failwith "trailing" else
@@ -97,6 +128,13 @@ let handle = function
   | "sch" :: fx :: sx :: ctx :: toks ->
       let (s, rest) = p_stmt toks in if rest <> [] then failwith "trailing" else
       let (h, t, b) = init ctx in show (run_sch (bool_of_string fx) (bool_of_string sx) s h t b)
+  | "lab" :: late :: fx :: sx :: ctx :: toks ->
+      let (s, rest) = p_stmt toks in if rest <> [] then failwith "trailing" else
+      let (h, t, b) = init ctx in
+      show (run_lab (bool_of_string late) (bool_of_string fx) (bool_of_string sx) s h t b)
+  | "sites" :: toks ->
+      let (s, rest) = p_stmt toks in if rest <> [] then failwith "trailing" else
+      sites s
   | _ -> "!ERR badcmd"
 
 let () = main_loop handle
